@@ -44,22 +44,41 @@ def tree_case(case, root):
             open(init, 'w').close()
     fname = {'plain': 'modx.py', 'init': '__init__.py', 'main': '__main__.py'}[case['kind']]
     path = os.path.join(d, fname)
+    # every relative import sits in another kind of statement block (module level, function, class, if / else, try body,
+    # except handler, finally, with, loop, loop-else, match case): the rewrite has to reach all of them
+    CONTAINERS = [
+        '{imp}',
+        'def fn{i}():\n    {imp}',
+        'class K{i}:\n    {imp}',
+        'if True:\n    {imp}',
+        'if False:\n    pass\nelse:\n    {imp}',
+        'try:\n    {imp}\nexcept ImportError:\n    pass',
+        'try:\n    raise ImportError\nexcept ImportError:\n    {imp}',
+        'try:\n    pass\nfinally:\n    {imp}',
+        'with open(__file__):\n    {imp}',
+        'for _x in (1,):\n    {imp}',
+        'while False:\n    pass\nelse:\n    {imp}',
+        'match 1:\n    case 1:\n        {imp}',
+        'async def afn{i}():\n    {imp}',
+    ]
     lines = []
-    for level, target, names in case['imports']:
-        lines.append('from %s%s import %s' % ('.' * level, target or '', ', '.join(n if not a else '%s as %s' % (n, a) for n, a in names)))
+    for i, (level, target, names) in enumerate(case['imports']):
+        imp = 'from %s%s import %s' % ('.' * level, target or '', ', '.join(n if not a else '%s as %s' % (n, a) for n, a in names))
+        lines.append(CONTAINERS[(i + case.get('shift', 0)) % len(CONTAINERS)].format(imp=imp, i=i))
     lines.append('from os import path as p0')
+    text = '\n'.join(lines) + '\n'
     with open(path, 'w') as fh:
-        fh.write('\n'.join(lines) + '\n')
+        fh.write(text)
     tree = AstTreeModuleProfiler._get_script_ast_tree(path)
     got = [[n.module, n.level, [[a.name, a.asname] for a in n.names], n.lineno] for n in ast.walk(tree) if isinstance(n, ast.ImportFrom)]
     got.sort(key=lambda g: g[3])
-    # what Python does from that file's position
+    # what Python does from that file's position: its own resolver on every `from … import` of the original text
     dotted = '.'.join(case['pkg'])
     package = dotted                       # __package__ of pkg/__init__.py, pkg/__main__.py and pkg/modx.py alike
     exp = []
-    for i, (level, target, names) in enumerate(case['imports']):
-        exp.append([importlib.util.resolve_name('.' * level + (target or ''), package), 0, [list(x) for x in names], i + 1])
-    exp.append(['os', 0, [['path', 'p0']], len(case['imports']) + 1])
+    for n in sorted((n for n in ast.walk(ast.parse(text)) if isinstance(n, ast.ImportFrom)), key=lambda n: n.lineno):
+        mod = importlib.util.resolve_name('.' * n.level + (n.module or ''), package) if n.level else n.module
+        exp.append([mod, 0, [[a.name, a.asname] for a in n.names], n.lineno])
     if case['kind'] == 'init':
         os.remove(path)
         open(path, 'w').close()
